@@ -419,6 +419,8 @@ def structural(chk, progs):
                 kind = "wrong-output" if ci.get("out") != co.get("out") else "wrong-value"
                 if ci["outcome"] != "ok":
                     kind = ci["outcome"].split(" ")[0].split(":")[0]
+                elif co["outcome"].startswith("compile-err"):
+                    kind = "accepted-unsafe-use"
                 chk.violation(f"scope:structure:{kind}",
                               f"the compiled structure (cells / capture pairs) differs from the scope model's and a program exists on which a name then denotes "
                               f"the wrong cell ({c.tag}): impl={json.dumps(ci)[:500]} expected={json.dumps(co)[:500]}; first structural difference on a {tag} program: "
@@ -553,6 +555,19 @@ def failing_input_search(chk):
     for depth in range(2, 7):
         for rep in range(4):
             cands.append(FCase(t_distance(rng, depth, [rng.choice(['fn', 'lam']) for _ in range(depth)]), f"distance-{depth}"))
+    # the forward gate: uses that must be rejected
+    gate = []
+    for i in range(150 if chk.tier == "quick" else 1500):
+        ds, safe, form = gate_graph(rng, in_function=(i % 3 == 2))
+        if not safe:
+            gate.append(FCase(ds, "gate-graph"))
+    gres = run_harness([c.req() for c in gate])
+    chk.count("failing-input-search:programs", len(gate))
+    for c, r in zip(gate, gres):
+        ci = cg.canon_impl(r, c.names)
+        if not ci["outcome"].startswith("compile-err MissingForwardImplementation"):
+            _SEARCH["hit"] = (c, ci, {"outcome": "compile-err MissingForwardImplementation"})
+            return _SEARCH["hit"]
     impl = run_harness([c.req() for c in cands])
     chk.count("failing-input-search:programs", len(cands))
     for c, r in zip(cands, impl):
